@@ -54,6 +54,13 @@ func verifDir() string {
 	return "/verif"
 }
 
+func outDir() string {
+	if d := os.Getenv("VERIF_OUT"); d != "" {
+		return d
+	}
+	return verifDir()
+}
+
 func repoDir() string {
 	if d := os.Getenv("VERIF_REPO"); d != "" {
 		return d
@@ -348,8 +355,18 @@ func fidelityGate(b *Built, env []string) string {
 	}
 	ch := make(chan res, 2)
 	go func() { ch <- runTests(b.Plain, nil) }()
+	go func() { ch <- runTests(b.Plain, nil) }()
 	ri := runTests(b.Inst, []string{"GOMAXPROCS=1", "GODEBUG=asyncpreemptoff=1"})
-	rp := <-ch
+	rp, rp2 := <-ch, <-ch
+	flaky := 0
+	for k, v := range rp.m {
+		if rp2.m[k] != v {
+			// outcome differs between two plain runs: the tree's own test is flaky
+			delete(rp.m, k)
+			delete(ri.m, k)
+			flaky++
+		}
+	}
 	if len(rp.m) == 0 || len(ri.m) == 0 {
 		fail2("fidelity gate: no test results (plain %d, instrumented %d)\n%s\n%s", len(rp.m), len(ri.m), rp.err, ri.err)
 	}
@@ -377,5 +394,5 @@ func fidelityGate(b *Built, env []string) string {
 			npass++
 		}
 	}
-	return fmt.Sprintf("identical outcomes on %d test results (%d pass) between plain and instrumented copies", len(rp.m), npass)
+	return fmt.Sprintf("identical outcomes on %d test results (%d pass) between plain and instrumented copies (%d results flaky between two plain runs excluded)", len(rp.m), npass, flaky)
 }
